@@ -467,6 +467,7 @@ def check_property(pid, tier, seed, only_sub=None, jobs=None):
         with multiprocessing.get_context('fork').Pool(min(NSHARDS, len(tasks))) as pool:
             results = pool.map(run_sub_shard, tasks, chunksize=1)
 
+    skipped = {}
     per_sub = collections.OrderedDict()
     for s in subs:
         per_sub[s.name] = {'evaluations': 0, 'rejected': 0, 'excluded_known': 0,
@@ -482,6 +483,8 @@ def check_property(pid, tier, seed, only_sub=None, jobs=None):
             a['samples'].extend(r['samples'][:3 - len(a['samples'])])
         if r['harness_error']:
             harness.append((r['sub'], r['harness_error']))
+        if r.get('fuzz_skipped'):
+            skipped[r['sub']] = r['fuzz_skipped']
         if r['violation'] and not any(v[0] == r['sub'] for v in violations if v[2].startswith('search')):
             path = write_replay(pid, r['sub'], r['violation'], seed, tier)
             violations.append((r['sub'], path, 'search: ' + r['violation']['msg']))
@@ -531,6 +534,10 @@ def check_property(pid, tier, seed, only_sub=None, jobs=None):
     }
     if harness:
         ev['coverage']['harness_errors'] = [h[1][-500:] for h in harness]
+    if skipped:
+        ev['coverage']['fuzz_skipped'] = skipped
+        for k, v in skipped.items():
+            shortfalls.append('%s: %s' % (k, v))
     if not only_sub and os.path.realpath(REPO) == '/repo':
         os.makedirs(os.path.join(VERIF, 'evidence'), exist_ok=True)
         with open(os.path.join(VERIF, 'evidence', pid + '.json'), 'w') as f:
